@@ -86,17 +86,20 @@ func (b Bundle) Fragment(mtu int) (bs []Bundle, err error) {
 				continue
 			}
 
-			fragBundle.AddExtensionBlock(cb)
+			// Keep the block numbers, so that reassembling yields the original blocks.
+			fragBundle.CanonicalBlocks = append(fragBundle.CanonicalBlocks, cb)
 		}
 
 		fragPayloadBlockLen := mtu - overhead
 
 		offset := int(math.Min(float64(i+fragPayloadBlockLen), float64(len(payloadBlock.Value.(*PayloadBlock).Data()))))
-		fragBundle.AddExtensionBlock(CanonicalBlock{
+		fragBundle.CanonicalBlocks = append(fragBundle.CanonicalBlocks, CanonicalBlock{
+			BlockNumber:       payloadBlock.BlockNumber,
 			BlockControlFlags: payloadBlock.BlockControlFlags,
 			CRCType:           payloadBlock.CRCType,
 			Value:             NewPayloadBlock(payloadBlock.Value.(*PayloadBlock).Data()[i:offset]),
 		})
+		fragBundle.sortBlocks()
 
 		if err = fragBundle.CheckValid(); err != nil {
 			return
@@ -261,7 +264,7 @@ func ReassembleFragments(bs []Bundle) (b Bundle, err error) {
 			continue
 		}
 
-		b.AddExtensionBlock(cb)
+		b.CanonicalBlocks = append(b.CanonicalBlocks, cb)
 	}
 
 	if payload, payloadErr := mergeFragmentPayload(bs); payloadErr != nil {
@@ -277,7 +280,8 @@ func ReassembleFragments(bs []Bundle) (b Bundle, err error) {
 		cb := NewCanonicalBlock(1, pb0.BlockControlFlags, NewPayloadBlock(payload))
 		cb.SetCRCType(pb0.CRCType)
 
-		b.AddExtensionBlock(cb)
+		b.CanonicalBlocks = append(b.CanonicalBlocks, cb)
+		b.sortBlocks()
 	}
 
 	err = b.CheckValid()
